@@ -276,6 +276,12 @@ def gen_cross_user(rng, et):
                     t[c] = rng.choice(["i", "i", ""])
                     for j in range(3):
                         t[c + ((200 if c[1] == 21 else 100) + j,)] = "i"
+            elif u2 != ui and rng.random() < 0.6:
+                # rules that match item paths only (e.g. `collection: team/cal/status-{user}\.ics`): letters on a
+                # member's own path, nothing on the collection -- members are governed by the PARENT's letters
+                for c in own[u2]:
+                    for j in range(4):
+                        t[c + ((200 if c[1] == 21 else 100) + j,)] = rng.choice(["w", "W", "wW", "rw", "RWrw", "r", "d", "wd"])
     for _ in range(rng.randrange(6, 16)):
         ui = rng.choice([1, 2, 0])
         victim = rng.choice([c for u2 in (1, 2) if u2 != ui for c in own[u2]])
